@@ -184,6 +184,10 @@ def join_component_view(component, view):
     """
     if view is None:
         return component
+    if isinstance(view, np.ndarray):
+        # a single boolean mask or integer index array, not a sequence of
+        # per-dimension items
+        return component, view
     result = [component]
     try:
         result.extend(view)
